@@ -260,3 +260,64 @@ package types
 //@   requires minimal: tcpFlagMinimal(s)
 //@   ensures  minimal: tcpFlagMinimal(s)
 //@ end
+
+// ---------------------------------------------------------------------------
+// C04 — path precedence in the generated maps (leaf contracts)
+
+// nested paths of different non-exact, non-regex types must be split into
+// dedicated files (and same-type entries never are)
+//@ func overlaps
+//@   props C04
+//@   modifies nothing
+//@   ensures iff: result == (e1.match != e2.match && e1.path != e2.path && e1.match != MatchExact && e2.match != MatchExact
+//@       && e1.match != MatchRegex && e2.match != MatchRegex && hasPrefix(e1.path, e2.path))
+//@ end
+
+// host and path are joined by '#' so that dir matching cannot cross from the
+// hostname into the path
+//@ func buildMapKey
+//@   props C04
+//@   modifies nothing
+//@   ensures sep:   match != MatchRegex && hostname != "" && path != "" ==> result == hostname + "#" + path
+//@   ensures plain: hostname == "" || path == "" ==> result == hostname + path
+//@ end
+
+// within a file: exact keys ascending; regex longer keys first; otherwise, for
+// one hostname, a path is never placed after one of its proper prefixes (the
+// longer declared path is tested first)
+//@ func (*hostsMapMatchFile).sort
+//@   props C04
+//@   requires nn: forall k int :: 0 <= k && k < len(mf.entries) ==> mf.entries[k] != nil
+//@   modifies objects("[]*HostsMapEntry")
+//@   ensures same-len: len(mf.entries) == old(len(mf.entries))
+//@   ensures exact:  mf.match == MatchExact ==> forall a int, b int :: 0 <= a && a < b && b < len(mf.entries) ==> !(mf.entries[b].Key < mf.entries[a].Key)
+//@   ensures regex:  mf.match == MatchRegex ==> forall a int, b int :: 0 <= a && a < b && b < len(mf.entries) ==> len(mf.entries[a].Key) >= len(mf.entries[b].Key)
+//@   ensures longer-first: mf.match != MatchExact && mf.match != MatchRegex ==> forall a int, b int :: 0 <= a && a < b && b < len(mf.entries)
+//@       && mf.entries[a].hostname == mf.entries[b].hostname && mf.entries[a].path != mf.entries[b].path ==> !hasPrefix(mf.entries[b].path, mf.entries[a].path)
+//@ end
+
+// entries moved to a priority file are dropped from this file, the others stay
+//@ func (*hostsMapMatchFile).shrink
+//@   props C04
+//@   modifies mf.entries, objects("[]*HostsMapEntry")
+//@   ensures kept: forall k int :: 0 <= k && k < len(mf.entries) ==> mf.entries[k]._elem == nil
+//@   ensures fewer: len(mf.entries) <= old(len(mf.entries))
+//@   loop 1 invariant scan: 0 - 1 <= i && i < len(e) && 0 <= l && l <= len(e) && i < l && e == old(mf.entries)
+//@       && (forall p *HostsMapEntry :: old(allocated(p)) ==> p._elem == old(p._elem))
+//@       && (forall k int :: i < k && k < l ==> e[k]._elem == nil)
+//@ end
+
+//@ func haMatchMethod
+//@   props C04
+//@   modifies nothing
+//@   ensures str: match == MatchExact ==> result == "str"
+//@   ensures dir: match == MatchPrefix ==> result == "dir"
+//@   ensures beg: match == MatchBegin ==> result == "beg"
+//@   ensures reg: match == MatchRegex ==> result == "reg"
+//@ end
+
+//@ func (*hostsMapMatchFile).lower
+//@   props C04
+//@   modifies nothing
+//@   ensures beg-only: result == (mf.match == MatchBegin)
+//@ end
